@@ -51,6 +51,16 @@ CHECKS = {
             "Per family (stake; plasma fusions; sentinel collateral + QSR deposit; pillar QSR deposit) all histories of depth 3 (quick) / 4 (thorough) over 6-10 operations (deposits of two accounts and durations, withdrawal attempts by owner / stranger / beneficiary, with known and unknown ids, before and after maturity, repeated; reward collection; momentums as time) from 2 base states each (genesis; entries existing: one mature, one not), with lock periods shrunk to 2-3 momentums. After every transition, at the confirmed ledger and the pool view, an auditor replays each contract's receive blocks from the ledger alone and checks: ledger-derived liabilities == liabilities in contract storage <= contract balance (per contract and token); every payout matched by an entitlement (entitled party, not before the lock allows, not twice, exact amount and recipient); a matured withdrawal by the entitled party pays out.",
             "HTLC, liquidity stake and bridge unwrap (need activated sporks) and pillar registration/revocation are not covered; lock constants shrunk (logic is parametric in them).",
             "5/C10"),
+    "C11": ("model_checking",
+            "bounded-history explicit-state exploration on a real node with short epochs; per-epoch reward invariants evaluated after every transition + follower differential at the end of every history",
+            "Epochs of 6 momentums. All histories of depth 3 (quick) / 4 + extended alphabet (thorough) over 12 operations (momentum, 3 momentums, skipped slot = missed momentum, delegate / undelegate, stake entering, stake leaving, explicit Update calls on stake and pillar contracts, CollectReward by staker / pillar / delegator) from 2 base states (just before the first epoch end with a stake and a delegation; two epochs in with a registered sentinel and pending rewards). After every transition for pillar, sentinel, stake and liquidity contracts: credited ZNN/QSR per epoch <= the contract's emission share recomputed from the tables; last rewarded epoch never decreases; an epoch's reward history never changes once written and none exists beyond the last rewarded epoch; for every address credited == collected (minted through CollectReward) + pending. At the end of every history a follower fed in one batch and a follower fed half / restarted with a wiped consensus cache / fed the rest must be byte-identical to the producer.",
+            "Shrunk epoch/tick/update constants (mutually consistent); reward history read for all accounts that act in the histories.",
+            "5/C11"),
+    "C13": ("model_checking",
+            "exhaustive enumeration of (accepted block, field alteration, sealing flavour) variants delivered to a follower before the producer's momentum + exhaustive codec round trips",
+            "(b) every pooled block of 3 (quick) / 52 (thorough) real histories x every alteration of every field of the block and of each descendant (inside and outside the hash pre-image; ChangesHash/PublicKey/Signature bit flips, S+L encodings, plasma fields, descendant add/drop/duplicate/swap/nest, 49 non-canonical ABI encodings of call data) in three flavours (hash kept / recomputed / re-signed), delivered through the TxMsg RLP round trip to a follower's AddAccountBlocks and inside a DetailedMomentum through InsertChain while the producer keeps the original: the follower must refuse the variant, or store bytes equal to the producer's, accept the producer's momentum and stay byte-identical; accepted variants are escalated to a second producer and a fresh node. Momentum variants likewise. (a) protobuf, RLP (the three wire forms), nom JSON, rpc JSON and Copy() round trips of all real blocks/momentums plus 625 generated shapes and 36k JSON number/string spellings: same protobuf bytes and hash.",
+            "One field (or one named pair) altered per variant; only fused-plasma blocks; contract methods that occur in the histories.",
+            "5/C13"),
     "C15": ("exploration",
             "exhaustive enumeration of protocol sessions over a 304-letter message alphabet on the real ProtocolManager (child processes), of every single-byte corruption/truncation/reordering of rlpx frames, and of every corruption of discovery packets",
             "(a) all sessions of <=2 messages (quick; thorough: <=3 over a reduced 75-letter alphabet) over 304 letters (9 message codes + unknown codes x empty / wrong RLP kind / truncated / boundary parameters, forged momentums and blocks, oversize messages) before and after the handshake on chains of 600 and 5 momentums, plus scripted downloader/fetcher dialogues, on the real ProtocolManager over p2p.MsgPipe in re-exec'd child processes: no panic (recovered panics are confirmed by a raw child dying), sentinel request answered by the same and a witness peer after every message, replies <=512 hashes / <=128 momentums / <=10 MiB, oversize dropped unread. (b) 3 real rlpx frames: every byte x {^0xFF,+1} (thorough all 255 masks), every truncation, all sequences of <=4 frames, crafted valid-MAC frames: error or exactly the sent message. (c) real discovery udp/Table on an in-memory conn: every single-byte corruption and truncation of 4 packet kinds (raw and re-hashed), expiry/version/oversize variants, bonded-sender flow: rejected, no panic, no datagram to an unverified sender.",
